@@ -5,7 +5,7 @@
    order on ids; they are instantiated with the flat algebra of Resource/Flat.v for the
    correspondence (C01_instance_* shows the hypotheses hold there). *)
 From SC Require Import Base.Prelude Resource.Impl Resource.Spec Resource.ImplProofs Resource.SpecProofs
-  Resource.Flat Resource.FlatProofs Resource.Judge.
+  Resource.Pull04Proofs Resource.Flat Resource.FlatProofs Resource.Judge Resource.Tween Resource.TweenProofs.
 
 Section C01.
   Variable M : Type.
@@ -87,8 +87,36 @@ Section C01.
     c_get r_filter idfun s' id0 None = None /\
     (forall id', id' <> apply_id idfun id0 -> lookup id' (c_items s') = lookup id' (c_items s)).
   Proof. intros. eapply get_after_delete; eauto. Qed.
+
+  (* option combinations: BOTH value preconditions are consulted.  The reference lets a write through
+     exactly when the expected value (if given) matches AND the expected check (if given) accepts;
+     the code-shaped closure of opt.go succeeds only then *)
+  Theorem C01_preconditions_all_consulted : forall (o : wopts M writer) base,
+    precondition m_eqb o base = None <->
+    (forall e, wo_expected o = Some e -> option_eqb m_eqb base (Some e) = true) /\
+    (forall chk, wo_check o = Some chk -> chk base = None).
+  Proof. intros. apply precondition_none_iff. Qed.
+
+  Theorem C01_change_fn_success_needs_both : forall (o : wopts M writer) value old x,
+    change_fn m_eqb m_empty w_merge o value old = inl x ->
+    (forall e, wo_expected o = Some e -> option_eqb m_eqb old (Some e) = true) /\
+    (forall chk, wo_check o = Some chk -> chk old = None).
+  Proof. intros. eapply change_fn_success_needs_both; eauto. Qed.
+
+  (* NewCollection(WithInitialRecord ...): sorted contents holding exactly the given records, each
+     stamped with the construction-time clock reading *)
+  Theorem C01_initial_records : forall (records : list (string * M)),
+    NoDup (map fst records) ->
+    sorted str_ltb (c_items (c_new clock_at str_ltb records)) /\
+    (forall id v, In (id, v) records ->
+       lookup id (c_items (c_new clock_at str_ltb records)) = Some (mkItem v (clock_at 0))) /\
+    (forall id, ~ In id (map fst records) -> lookup id (c_items (c_new clock_at str_ltb records)) = None).
+  Proof. intros. apply c_new_contents; assumption. Qed.
 End C01.
 
+Print Assumptions C01_preconditions_all_consulted.
+Print Assumptions C01_change_fn_success_needs_both.
+Print Assumptions C01_initial_records.
 Print Assumptions C01_collection_refines_reference.
 Print Assumptions C01_value_refines_reference.
 Print Assumptions C01_failed_call_is_noop.
@@ -129,3 +157,40 @@ Example C01_nonvacuous :
    (RDelete (Some (mkF 1 2 0)) None, [mkCE "b" 1020 KRemove (Some (mkF 1 2 0)) None]);
    (RList [("a"%string, mkF 3 0 0)], [])].
 Proof. vm_compute. reflexivity. Qed.
+
+(* non-vacuity of the precondition theorems: a Set carrying BOTH an expected value that matches and
+   a check that rejects fails with the check's code and leaves the value alone; with a check that
+   accepts it succeeds *)
+Example C01_nonvacuous_both_preconditions :
+  let both c := mkFWO None None None None false (Some (mkF 1 0 0)) false (Some c) false None None false false false false in
+  let run c := snd (v_run f_v_spec_step (v_init fclock (Some (mkF 1 0 0)))
+                     (map (to_vop None) [FVSet (mkF 2 0 0) (both c); FVGet None])) in
+  map fst (run (CFail 7)) = [VRSet (inr 7); VRGet (Some (mkF 1 0 0))] /\
+  map fst (run (CEq Fa 1 7)) = [VRSet (inl (mkF 2 0 0)); VRGet (Some (mkF 2 0 0))].
+Proof. vm_compute. split; reflexivity. Qed.
+
+Example C01_nonvacuous_initial_records :
+  c_list fr_filter (c_new fclock str_ltb [("b"%string, mkF 2 0 0); ("a"%string, mkF 1 0 0)]) None None =
+  [("a"%string, mkF 1 0 0); ("b"%string, mkF 2 0 0)].
+Proof. vm_compute. reflexivity. Qed.
+
+(* auxiliary (outside the statement of C01, see notes/C01.md): pkg/resource/tween.go's update
+   validation, the remaining pure function of the package, accepts exactly "no tween, or zero
+   progress and a non-negative total duration", and AsDuration is exact on every duration a
+   time.Duration can hold *)
+Theorem C01_aux_validate_tween_on_update : forall t,
+  validate_tween_on_update t =
+  match t with
+  | None => None
+  | Some tw =>
+      if f32_is_zero (tw_progress tw) &&
+         (0 <=? match tw_total tw with Some (s, n) => as_duration s n | None => 0 end)
+      then None else Some 3
+  end.
+Proof. exact validate_tween_on_update_spec. Qed.
+Theorem C01_aux_as_duration_exact : forall secs nanos,
+  -9223372035 <= secs <= 9223372035 -> -999999999 <= nanos <= 999999999 ->
+  as_duration secs nanos = secs * 1000000000 + nanos.
+Proof. exact as_duration_exact. Qed.
+Print Assumptions C01_aux_validate_tween_on_update.
+Print Assumptions C01_aux_as_duration_exact.
